@@ -134,6 +134,7 @@ type guardedType struct {
 	st      *types.Struct
 	muIdx   int
 	muIsPtr bool
+	muPath  []string // mutex reached through a path of fields (e.g. cond.L): the lock is the value found there
 	fields  map[int]bool // guarded scalar fields (by index)
 	elems   map[int]bool // fields whose backing array is guarded
 	maps    map[int]bool // fields whose map contents are guarded
@@ -168,6 +169,12 @@ func (vc *VC) guardTable() map[string]*guardedType {
 			continue
 		}
 		tkey, mf := g.Mutex[:k], g.Mutex[k+1:]
+		var path []string
+		if parts := strings.Split(g.Mutex, "."); len(parts) > 3 {
+			// pkg.Type.f1.f2...: a mutex reached through a path of fields
+			tkey, mf = parts[0]+"."+parts[1], parts[2]
+			path = parts[2:]
+		}
 		n := vc.w.lookupNamed(tkey)
 		if n == nil {
 			vc.errorf("%s: unknown type %s", g.Src, tkey)
@@ -192,6 +199,7 @@ func (vc *VC) guardTable() map[string]*guardedType {
 			continue
 		}
 		_, gt.muIsPtr = st.Field(gt.muIdx).Type().Underlying().(*types.Pointer)
+		gt.muPath = path
 		for _, l := range g.Locs {
 			switch {
 			case strings.HasPrefix(l, "elems(") && strings.HasSuffix(l, ")"):
@@ -217,6 +225,33 @@ func (vc *VC) guardTable() map[string]*guardedType {
 
 // muOf: the address of the mutex guarding object o of guarded type gt (in state st).
 func (ex *Exec) muOf(gt *guardedType, o string, st *State) string {
+	if len(gt.muPath) > 1 {
+		cur := o
+		var t types.Type = gt.named
+		for _, fname := range gt.muPath {
+			n, s := structOf(t)
+			if s == nil {
+				return "0"
+			}
+			found := false
+			for i := 0; i < s.NumFields(); i++ {
+				if s.Field(i).Name() == fname {
+					k, srt, ft := ex.fieldKey(n, s, i)
+					cur = sSel(ex.get(st, k, "(Array Int "+srt+")"), cur)
+					t = ft
+					if p, ok := ft.Underlying().(*types.Pointer); ok {
+						t = p.Elem()
+					}
+					found = true
+					break
+				}
+			}
+			if !found {
+				return "0"
+			}
+		}
+		return cur
+	}
 	if !gt.muIsPtr {
 		return fmt.Sprintf("(sub %s %d)", o, gt.muIdx)
 	}
@@ -440,17 +475,17 @@ func (ex *Exec) concEnterSection(mu string, pos token.Pos, rebind bool) {
 	st := ex.curState
 	ex.set(st, "SECTION", "Int", "(+ "+ex.get(st, "SECTION", "Int")+" 1)")
 	top := ex.topExec()
-	if vc.spec == nil || vc.spec.Opts["multi-section"] == "" {
-		vc.oblige("lp.single-writer", "lp", pos, ex.curReach, sOr(ex.localObj(mu), sNot(ex.get(st, "WROTE", "Bool"))),
+	if (vc.spec == nil || vc.spec.Opts["multi-section"] == "") && !ex.noLpCheck {
+		vc.oblige("lp.single-writer", "lp", pos, ex.curReach, sOr(ex.sectionLocal(mu), sNot(ex.get(st, "WROTE", "Bool"))),
 			"no earlier critical section of this call wrote guarded state (the operation takes effect in one section)")
 	}
 	for _, tk := range sortedGuardKeys(vc.guardTable()) {
 		gt := vc.guardTable()[tk]
-		if tk != ex.curMuOwner {
+		if tk != ex.curMuOwner && !(ex.curMuOwner == "*" && len(gt.muPath) > 1) {
 			continue // this mutex is not the mutex field of that type
 		}
 		owners := ex.owners(gt)
-		if !gt.muIsPtr {
+		if !gt.muIsPtr && len(gt.muPath) <= 1 {
 			// the object the mutex is embedded in is an owner even if this activation has not named it yet
 			o := "(subOf " + mu + ")"
 			dup := false
@@ -480,6 +515,14 @@ func (ex *Exec) concEnterSection(mu string, pos token.Pos, rebind bool) {
 		sort.Ints(fis)
 		for _, fi := range fis {
 			if !gt.fields[fi] {
+				continue
+			}
+			if ft := ex.instField(gt, fi); isAggregate(ft) {
+				// a struct stored by value: its leaves live at the sub-object address (sub o fi)
+				for _, o := range owners {
+					behind := sAnd(sEq(ex.muOf(gt, o, st), mu), sNot(ex.localObj(o)))
+					ex.havocAggregate(st, fmt.Sprintf("(sub %s %d)", o, fi), ft, behind)
+				}
 				continue
 			}
 			k, srt, _ := ex.fieldKeyInst(gt, fi)
@@ -545,7 +588,7 @@ func (ex *Exec) concEnterSection(mu string, pos token.Pos, rebind bool) {
 	if rebind {
 		// old() now means: the state at this acquisition -- unless the mutex is local to this call (nobody else can
 		// hold it, nothing was havocked, and the operation is not a critical section of a shared object)
-		loc := ex.localObj(mu)
+		loc := ex.sectionLocal(mu)
 		rebound := func() *State {
 			prev := st.old
 			if prev == nil {
@@ -608,12 +651,12 @@ func (ex *Exec) concLeaveSection(mu string, pos token.Pos) {
 	top := ex.topExec()
 	for _, tk := range sortedGuardKeys(vc.guardTable()) {
 		gt := vc.guardTable()[tk]
-		if tk != ex.curMuOwner {
+		if tk != ex.curMuOwner && !(ex.curMuOwner == "*" && len(gt.muPath) > 1) {
 			continue
 		}
 		if inv := vc.w.Contracts.LockInvs[gt.key]; inv != nil {
 			os := ex.owners(gt)
-			if !gt.muIsPtr {
+			if !gt.muIsPtr && len(gt.muPath) <= 1 {
 				os = append(os, "(subOf "+mu+")")
 			}
 			for _, o := range os {
@@ -735,4 +778,44 @@ func (ev *Eval) fieldOwnerType(e Expr) string {
 		return namedKey(n)
 	}
 	return ""
+}
+
+// sectionLocal: the mutex guards no object that other goroutines can see: every object of a guarded type that
+// this activation can name and that sits behind this mutex was created during the call.
+func (ex *Exec) sectionLocal(mu string) string {
+	var cs []string
+	for _, tk := range sortedGuardKeys(ex.vc.guardTable()) {
+		gt := ex.vc.guardTable()[tk]
+		if tk != ex.curMuOwner && !(ex.curMuOwner == "*" && len(gt.muPath) > 1) {
+			continue
+		}
+		os := ex.owners(gt)
+		if !gt.muIsPtr && len(gt.muPath) <= 1 {
+			os = append(os, "(subOf "+mu+")")
+		}
+		for _, o := range os {
+			cs = append(cs, sImp(sEq(ex.muOf(gt, o, ex.curState), mu), ex.localObj(o)))
+		}
+	}
+	return ex.vc.define("sec_local", "Bool", sAnd(cs...))
+}
+
+// havocAggregate: every leaf of the by-value struct at ref takes an arbitrary value if cond holds.
+func (ex *Exec) havocAggregate(st *State, ref string, t types.Type, cond string) {
+	n, s := structOf(ex.typ(t))
+	if s == nil {
+		return
+	}
+	for i := 0; i < s.NumFields(); i++ {
+		ft := s.Field(i).Type()
+		if isAggregate(ft) {
+			ex.havocAggregate(st, fmt.Sprintf("(sub %s %d)", ref, i), ft, cond)
+			continue
+		}
+		k, srt, _ := ex.fieldKey(n, s, i)
+		as := "(Array Int " + srt + ")"
+		cur := ex.get(st, k, as)
+		fresh := ex.vc.fresh("acq_"+k, srt)
+		ex.set(st, k, as, sIte(cond, sSto(cur, ref, fresh), cur))
+	}
 }
